@@ -150,7 +150,8 @@ def _repeat_layout(ev, n):
 def r01_1(chk, sg, cr):
     from .generic import dtype_inheritance_sites
     q = "SpaceGroup.apply_all_symops"
-    ev = sg.ev(q, opaque={"other_symops", "symops"})
+    from .generic import asarray_of_params_hook
+    ev = sg.ev(q, opaque={"other_symops", "symops"}, call_hook=asarray_of_params_hook({a.arg for a in sg.funcs[q].args.args}))
     chk.saw(SG, q)
     coords = P.name(ev.param_names[1])
     n = P.atom(("call", P.name("len"), (coords,)))
